@@ -161,6 +161,26 @@ def def_path(ctx, which=(FB, FF)):
         for st in body:
             if isinstance(st, ast.While):
                 break
+            # `if p is not None: p = <default>`: the default replaces what the caller supplied
+            # (survey: `if not measurements is None`) - all measurements are dropped in silence
+            if isinstance(st, ast.If) and isinstance(st.test, ast.Compare) and \
+                    isinstance(st.test.left, ast.Name) and len(st.test.ops) == 1 and \
+                    isinstance(st.test.ops[0], ast.IsNot) and \
+                    isinstance(st.test.comparators[0], ast.Constant) and \
+                    st.test.comparators[0].value is None and \
+                    state.get(st.test.left.id) == 'none' and not st.orelse:
+                p = st.test.left.id
+                for s2 in st.body:
+                    if isinstance(s2, ast.Assign) and len(s2.targets) == 1 and \
+                            isinstance(s2.targets[0], ast.Name) and s2.targets[0].id == p and \
+                            isinstance(s2.value, (ast.List, ast.Tuple, ast.Dict, ast.Constant)):
+                        n_sites += 1
+                        ctx.ob('DEF-PATH', False, None, 'the default is installed when the '
+                               'argument is absent', f=f, node=st, key='polarity-' + p,
+                               why='`%s` installs the default `%s` when a value WAS supplied: what '
+                                   'the caller passed is dropped, and None is used as it is'
+                                   % (norm_text(st.test), norm_text(s2.value)))
+                continue
             # `if p is None: p = <expr>`
             if isinstance(st, ast.If) and isinstance(st.test, ast.Compare) and \
                     isinstance(st.test.left, ast.Name) and len(st.test.ops) == 1 and \
@@ -1075,6 +1095,38 @@ def key_rebind(ctx, which=(FB, FF)):
                            "class the second iteration reads the DataFrame (`if <DataFrame>` "
                            "raises ValueError) - the filter cannot return" % (d, k))
         ctx.floor('KEY-REBIND', n, 1, 're-bound per-class entries in %s' % f.name)
+
+
+# ---------------------------------------------------------------- RESULT-INDEX
+def result_index(ctx, modules=('filters',)):
+    """Every table the filters hand out is indexed by time (`all standard-deviation and
+    sensor-estimate tables are ... indexed by a strictly increasing subset of the trajectory
+    times`, innovations `stamped with its own time`).  A pandas.DataFrame built without an index
+    argument is numbered 0..n-1 (survey: `index=trajectory.index` dropped from the result helpers
+    passed every check)."""
+    ctx.rule('RESULT-INDEX', 'every DataFrame constructed in the filter module is given an index '
+             '(the time axis of the rows)')
+    n = 0
+    for f in ctx.repo.all_functions():
+        if f.module.name.split('.')[-1] not in modules:
+            continue
+        loc = f.local_names()
+        for c in ast.walk(f.node):
+            if not (isinstance(c, ast.Call) and f.module.resolve(c.func, loc) == 'pandas.DataFrame'):
+                continue
+            n += 1
+            has = len(c.args) >= 2 or any(kw.arg == 'index' for kw in c.keywords) or \
+                any(kw.arg is None for kw in c.keywords)
+            # a table made from another table / dict of Series keeps that index
+            src = c.args[0] if c.args else next((kw.value for kw in c.keywords
+                                                 if kw.arg == 'data'), None)
+            keeps = isinstance(src, ast.Dict)
+            ctx.ob('RESULT-INDEX', has or keeps, None, '%s: `%s` is indexed' % (
+                f.qualname, norm_text(c)[:40]), f=f, node=c,
+                key='index-%s-%s' % (f.qualname, norm_text(c)[:40]),
+                why='`%s` builds a result table without an index: its rows are numbered 0..n-1 '
+                    'instead of carrying the times they belong to' % norm_text(c)[:80])
+    ctx.floor('RESULT-INDEX', n, 10, 'DataFrame constructions in the filter module')
 
 
 # ---------------------------------------------------------------- EMPTY-GUARD
